@@ -63,6 +63,9 @@ ValidPhys(p) == p[2] \in {0, 1, 2, 4} /\ p[3] \in {0, 1, 2, 4}
 
 EncBusy(S) == S.encph \in {"keyAsked", "startSent"}
 
+\* an answer to an earlier LL_VERSION_IND of the central is still to be transmitted
+VersionOwed(S) == \E i \in 1..Len(S.owed) : Op(S.owed[i].p) = VERSION_IND /\ "rsp" \in S.owed[i].kinds
+
 \* ---- the table: set of allowed reaction kinds ---------------------------------------------------
 \*   "none" no PDU     "unk" LL_UNKNOWN_RSP(opcode)    "unkany" LL_UNKNOWN_RSP(anything)
 \*   "rsp" the specified response PDU (Fits checks the payload)    "rej" LL_REJECT_IND / LL_REJECT_EXT_IND(opcode, *)
@@ -78,7 +81,7 @@ AllowedWF(S, p) ==              \* p has the nominal length of its opcode
       [] op = PHY_UPDATE_IND -> IF ~Has2M THEN {"unk"}
                                 ELSE IF ValidPhys(p) THEN {"none", "close"} ELSE {"none", "close", "unk", "rej"}
       [] op = FEATURE_REQ -> {"rsp"}
-      [] op = VERSION_IND -> IF S.verTx = 0 THEN {"rsp"}                      \* 5.1.5: answer, once
+      [] op = VERSION_IND -> IF S.verTx = 0 /\ ~VersionOwed(S) THEN {"rsp"}   \* 5.1.5: answer, once
                              ELSE IF ~S.verRx THEN {"none"}                    \* the answer to our own LL_VERSION_IND
                              ELSE {"none", "unk"}                              \* central repeats itself
       [] op = PING_REQ -> {"rsp"}
@@ -101,8 +104,7 @@ Allowed(S, p) ==
             ELSE IF n = nom THEN AllowedWF(S, p)
             ELSE IF op = UNKNOWN_RSP THEN {"none"}
             ELSE IF op \in {REJECT_IND, REJECT_EXT_IND, PAUSE_ENC_RSP} \cup UnsolicitedOps THEN {"none", "unk"}
-            ELSE IF n < nom THEN {"unk"}                                       \* malformed request
-            ELSE {"unk"} \cup AllowedWF(S, p)                                  \* too long: may use the fields it recognises
+            ELSE {"unk"}                                                       \* malformed (too short or too long) request
     IN  IF EncBusy(S) THEN base \cup {"close"} ELSE base      \* 5.1.3.1: unexpected PDU while encryption starts -> may end the link
 
 IsRej(tx) == (Len(tx) = 2 /\ tx[1] = REJECT_IND) \/ (Len(tx) = 3 /\ tx[1] = REJECT_EXT_IND)
@@ -168,7 +170,9 @@ OnRx(S, p) ==
         enc2 == [p |-> p, kinds |-> {"startenc", "rejkey"}, must |-> TRUE, ctx |-> [peerLacks |-> S.peerLacks]]
         owed1 == IF kinds \subseteq {"none", "close"} THEN S.owed        \* nothing may be transmitted for it
                  ELSE IF wf /\ op = ENC_REQ /\ HasEnc                       \* a repeated LL_ENC_REQ supersedes the earlier one
-                 THEN SelectSeq(S.owed, LAMBDA e : Op(e.p) # ENC_REQ) \o <<entry, enc2>>
+                 THEN LET old == SelectSeq(S.owed, LAMBDA e : ~(Op(e.p) = ENC_REQ /\ "startenc" \in e.kinds))
+                      IN  [i \in 1..Len(old) |-> IF Op(old[i].p) = ENC_REQ THEN [old[i] EXCEPT !.must = FALSE] ELSE old[i]]
+                          \o <<entry, enc2>>
                  ELSE Append(S.owed, entry)
         lacks == CASE wf /\ op = FEATURE_REQ -> S.peerLacks \cup ((0..7) \ Bits(p[2]))
                    [] wf /\ op = VERSION_IND /\ p[2] <= 6 -> S.peerLacks \cup (1..7)      \* a 4.0 peer has none of the later features
@@ -332,7 +336,7 @@ TypeOK == st.ok /\ st.verTx \in 0..1
 NeverAnswerRejects ==
     \A i \in 1..Len(st.owed) : ~(Op(st.owed[i].p) \in {UNKNOWN_RSP, REJECT_IND, REJECT_EXT_IND}
                                   /\ Len(st.owed[i].p) = NomLen(Op(st.owed[i].p)))
-\* a malformed or unknown request can only be answered with LL_UNKNOWN_RSP (or, for too long PDUs, like the well formed one)
+\* an unknown request can only be answered with LL_UNKNOWN_RSP
 UnknownGetsUnknownRsp ==
     \A i \in 1..Len(st.owed) : LET e == st.owed[i] IN
         (Len(e.p) > 0 /\ NomLen(Op(e.p)) = 0) => (e.must /\ e.kinds \ {"close"} = {"unk"})
